@@ -810,7 +810,11 @@ class RefResolver(object):
                 and _ARRAY_INDEX.fullmatch(part)
             ):
                 # Array indexes should be turned into integers
-                part = int(part)
+                try:
+                    part = int(part)
+                except ValueError:
+                    # more digits than int() converts: no array is that long
+                    pass
             try:
                 document = document[part]
             except (TypeError, LookupError):
